@@ -161,6 +161,12 @@ pub fn run(ctx: &Ctx) -> ! {
     }
 
     let quick = ctx.tier == Tier::Quick;
+    {
+        // the nominal schedule itself, always shown among the samples
+        let nom = nominal(5, 0);
+        let o = replay(&scratch, &fixture, &nom, Tail::Always);
+        rep.sample(json!({"history": nom, "outcome": o.result.outcome, "acknowledged_publications": o.published}));
+    }
     let ex = Explorer { threads: ctx.threads(), budget: None, run: &run };
 
     // (a) all histories up to a depth over the full alphabet, from the prepared states
